@@ -637,7 +637,7 @@ func (w *World) filterPredicateOrder(P string, f *Facts, r *Roles) {
 				continue
 			}
 			ok, why := false, "no function of the handler evaluates child 0 and child 1 in its own context with a forward-normalising store between them"
-			for _, g := range w.handlerClosure(h.Fn) {
+			for _, g := range w.handlerClosureH(h) {
 				var c0, c1 *ssa.Call
 				for _, ev := range w.childEvals(g) {
 					if !ev.OwnCtx {
@@ -691,6 +691,58 @@ func (w *World) filterPredicateOrder(P string, f *Facts, r *Roles) {
 					}
 					ok, why = true, "child 0, forward normaliser, child 1 in "+g.Name()
 				}
+				// the normalising store may sit in a step function called between the two evaluations with the same
+				// context (a function of the package, or one bound to a function-valued parameter of a driver)
+				allInstrs(g, func(in ssa.Instruction) {
+					cc, isCall := in.(*ssa.Call)
+					if !isCall || cc == c0 || cc == c1 || len(g.Params) == 0 {
+						return
+					}
+					sb := cc.Block()
+					if !(c0.Block() == sb && instrIndex(c0) < instrIndex(cc) || c0.Block() != sb && c0.Block().Dominates(sb)) {
+						return
+					}
+					if !(sb == c1.Block() && instrIndex(cc) < instrIndex(c1) || sb != c1.Block() && reaches(sb, c1.Block())) {
+						return
+					}
+					callee := staticCallee(cc)
+					if callee == nil && !cc.Call.IsInvoke() {
+						callee = h.boundFunc(cc.Call.Value)
+					}
+					if callee == nil || fnPkgKey(callee) != "exec" || len(callee.Params) == 0 || len(cc.Call.Args) == 0 || cc.Call.Args[0] != ssa.Value(g.Params[0]) {
+						return
+					}
+					// the call itself: conditional only on error tests and on the step function being there
+					for _, at := range guardAtoms(sb) {
+						if base[at] || isErrTest(at.V) {
+							continue
+						}
+						if bo, isBo := at.V.(*ssa.BinOp); isBo && isNilConst(bo.Y) && h.boundFunc(bo.X) != nil {
+							continue
+						}
+						return
+					}
+					for _, st := range resultStores(callee, r) {
+						if okN, _ := w.valueNormalised(st.Val, 1, 0); !okN {
+							continue
+						}
+						clean := true
+						for _, at := range guardAtoms(st.Block()) {
+							if isErrTest(at.V) {
+								continue
+							}
+							if ex, isEx := at.V.(*ssa.Extract); isEx && ex.Index == 1 && at.Pol {
+								if ta, isTA := ex.Tuple.(*ssa.TypeAssert); isTA && types.Identical(ta.AssertedType, r.NodeSet) {
+									continue
+								}
+							}
+							clean = false
+						}
+						if clean {
+							ok, why = true, "child 0, forward normaliser (in "+callee.Name()+"), child 1 in "+g.Name()
+						}
+					}
+				})
 			}
 			w.check(P, "R02.9", "filter production "+nt+": document order before the predicate", h.Fn.Pos(), ok, why)
 		}
@@ -1039,7 +1091,7 @@ func (w *World) perContextNode(P string, f *Facts, r *Roles) {
 		if where == 0 && nt == "Step" {
 			where = h.Fn.Pos()
 		}
-		for _, fn := range w.handlerClosure(h.Fn) {
+		for _, fn := range w.handlerClosureH(h) {
 			loops := loopBlocks(fn)
 			allInstrs(fn, func(in ssa.Instruction) {
 				al, ok := in.(*ssa.Alloc)
@@ -1078,7 +1130,7 @@ func (w *World) perContextNode(P string, f *Facts, r *Roles) {
 				// element of the node-set
 				var outerSites []*ssa.Call
 				if fromCopy && oneNode && !usedInLoop && len(evalCalls) > 0 {
-					for _, g := range w.handlerClosure(h.Fn) {
+					for _, g := range w.handlerClosureH(h) {
 						gl := loopBlocks(g)
 						allInstrs(g, func(in2 ssa.Instruction) {
 							if c2, ok := in2.(*ssa.Call); ok && staticCallee(c2) == fn && gl[c2.Block()] {
